@@ -45,6 +45,8 @@ fn snap_tree(i: usize) -> Entry {
             g.meta.mode = Some(0o2755);
             g.meta.uid = Some(0);
             g.meta.gid = Some(0);
+            // a recorded access time which differs from the modification time
+            g.meta.atime = Some(1_000_000_000_000_000_000);
             t.insert("sgid", g);
         }
         1 => {
